@@ -10,6 +10,8 @@
 //   A <i32|u32|i64|u64> <bits hex> <text>     member to*() of a String attached to exactly the characters <text> inside a larger block
 //   B <base64 text> <hex>          String::fromBase64 of an in-harness RFC 4648 encoding
 // modes: cp, dec2, dec3, dec4, dec-rand, int, hex, b64, b64-3, b64-rand, b64-bytes
+// Build flavours: the only private peek is the confirmation that an attach()ed String really refers to the block (counter attached_state_confirmed, AttView::attach);
+// it is compiled out with -DVERIF_NO_PRIVATE. Every verdict is public API in both flavours.
 #include "vh.hpp"
 #include <nstd/String.hpp>
 #include <nstd/Unicode.hpp>
